@@ -24,6 +24,8 @@ import RecipeGrid.Model.Sexp
     Requests and replies:
 
     ```
+    (the decision is that of the code as it is now, commit f55deed: fspath.resolve(), RuntimeError if a component
+     of the result is a symbolic link; root.resolve())
     (fslink  <fs> <root> <sourceDir> <url>)            resolve_local_links, page keys = directories and *.md files
                                                        below the resolved root
     (fslinkp (l <path>*) <fs> <root> <sourceDir> <url>)   the same with the keys of source_to_page_paths given
@@ -38,11 +40,15 @@ import RecipeGrid.Model.Sexp
         (asset (l <string>*) (l <byte>*))  the key added to filename_to_asset_paths is resolved-root + these
                                            components; its website path is assets_dir + "/" + "/".join(components);
                                            the bytes are the content of the file
-        (loop)                             RuntimeError("Symlink loop ...") from Path.resolve
+        (loop)                             RuntimeError("Symlink loop ...") from Path.resolve or from the check that
+                                           no component of the resolved path is a symbolic link
         (fuel)                             the model gave up: more than 4096 link expansions without a loop
         (bad-request fs)                   the file system is not well formed (`Fs.wf`)
         (bad-request args)                 anything else
+    (fslink1 / fslinkp1 / fsembed1 ...)    the same three for the code before commit 5662881 (a single resolve())
+    (fslink2 / fslinkp2 / fsembed2 ...)    the same three for commit 5662881 (resolve().resolve())
     (fsresolve <fs> <path>)                Path.resolve(): (some <path>) | none (RuntimeError) | (fuel)
+    (fsresolve2 <fs> <path>)               Path.resolve().resolve(): the same replies
     (fsunquote <string>)                   urllib.parse.unquote: <string>
     (fsurlsplit <string>)                  urlsplit: (l <scheme> <netloc> <path>)
     ```
@@ -75,28 +81,48 @@ def Outcome.toSexp : Outcome → Sexp
 
 def fsBad (what : String) : Sexp := Sexp.tag "bad-request" [Sexp.atom what]
 
-def fsDispatch : Sexp → Option Sexp
-  | .list [.atom "fslink", fs, root, sourceDir, url] =>
+def resolvedToSexp : Resolved → Sexp
+  | .ok q => Sexp.ofOpt (Sexp.ofList Sexp.ofStr) (some q)
+  | .eloop => Sexp.ofOpt (Sexp.ofList Sexp.ofStr) none
+  | .outOfFuel => Sexp.tag "fuel" []
+
+/-- the three decisions for a given way of resolving -/
+def fsDecide (decide : (Path → Bool) → Fs → Path → Path → Str → Outcome) (kind : String) (args : List Sexp) : Option Sexp :=
+  match kind, args with
+  | "link", [fs, root, sourceDir, url] =>
     match fsOfSexp? fs, pathOfSexp? root, pathOfSexp? sourceDir, url.asStr? with
     | some fs, some root, some sd, some url =>
-      some (if fs.wf then (decideLink fs root sd url).toSexp else fsBad "fs")
+      some (if fs.wf then (decide (isPageSource fs root) fs root sd url).toSexp else fsBad "fs")
     | _, _, _, _ => some (fsBad "args")
-  | .list [.atom "fslinkp", pages, fs, root, sourceDir, url] =>
+  | "linkp", [pages, fs, root, sourceDir, url] =>
     match Sexp.asList? pathOfSexp? pages, fsOfSexp? fs, pathOfSexp? root, pathOfSexp? sourceDir, url.asStr? with
     | some pages, some fs, some root, some sd, some url =>
-      some (if fs.wf then (decideLinkP (fun q => pages.contains q) fs root sd url).toSexp else fsBad "fs")
+      some (if fs.wf then (decide (fun q => pages.contains q) fs root sd url).toSexp else fsBad "fs")
     | _, _, _, _, _ => some (fsBad "args")
-  | .list [.atom "fsembed", fs, root, sourceDir, url] =>
+  | "embed", [fs, root, sourceDir, url] =>
     match fsOfSexp? fs, pathOfSexp? root, pathOfSexp? sourceDir, url.asStr? with
     | some fs, some root, some sd, some url =>
-      some (if fs.wf then (decideEmbed fs root sd url).toSexp else fsBad "fs")
+      some (if fs.wf then (decide (fun _ => false) fs root sd url).toSexp else fsBad "fs")
     | _, _, _, _ => some (fsBad "args")
+  | _, _ => some (fsBad "args")
+
+def fsDispatch : Sexp → Option Sexp
+  | .list (.atom "fslink" :: args) => fsDecide decideLinkP "link" args
+  | .list (.atom "fslinkp" :: args) => fsDecide decideLinkP "linkp" args
+  | .list (.atom "fsembed" :: args) => fsDecide decideLinkP "embed" args
+  | .list (.atom "fslink2" :: args) => fsDecide decideLinkP2 "link" args
+  | .list (.atom "fslinkp2" :: args) => fsDecide decideLinkP2 "linkp" args
+  | .list (.atom "fsembed2" :: args) => fsDecide decideLinkP2 "embed" args
+  | .list (.atom "fslink1" :: args) => fsDecide decideLinkP1 "link" args
+  | .list (.atom "fslinkp1" :: args) => fsDecide decideLinkP1 "linkp" args
+  | .list (.atom "fsembed1" :: args) => fsDecide decideLinkP1 "embed" args
   | .list [.atom "fsresolve", fs, p] =>
     match fsOfSexp? fs, pathOfSexp? p with
-    | some fs, some p => some (if fs.wf then (match resolvePy fs p with
-        | .ok q => Sexp.ofOpt (Sexp.ofList Sexp.ofStr) (some q)
-        | .eloop => Sexp.ofOpt (Sexp.ofList Sexp.ofStr) none
-        | .outOfFuel => Sexp.tag "fuel" []) else fsBad "fs")
+    | some fs, some p => some (if fs.wf then resolvedToSexp (resolvePy fs p) else fsBad "fs")
+    | _, _ => some (fsBad "args")
+  | .list [.atom "fsresolve2", fs, p] =>
+    match fsOfSexp? fs, pathOfSexp? p with
+    | some fs, some p => some (if fs.wf then resolvedToSexp (resolvePy2 fs p) else fsBad "fs")
     | _, _ => some (fsBad "args")
   | .list [.atom "fsunquote", s] =>
     match s.asStr? with
